@@ -28,7 +28,7 @@ type Case struct {
 }
 
 func zMessage(t *rapid.T, depth int) []byte {
-	z := mirror.GenZ(t, depth)
+	z := mirror.GenZ(&mirror.Rapid{T: t}, depth)
 	msg, seg, _ := capnp.NewMessage(capnp.SingleSegment(nil))
 	root, err := air.NewRootZ(seg)
 	if err != nil {
@@ -393,8 +393,8 @@ var _ = pbt.Register(pbt.Spec[defCase]{
 	Quick:    3000, Thorough: 30000,
 	Gen: func(t *rapid.T) defCase {
 		return defCase{
-			SetText: rapid.Bool().Draw(t, "st"), Text: mirror.Bytes(t, "text", 10),
-			SetData: rapid.Bool().Draw(t, "sd"), Data: mirror.Bytes(t, "data", 10),
+			SetText: rapid.Bool().Draw(t, "st"), Text: mirror.Bytes(&mirror.Rapid{T: t}, "text", 10),
+			SetData: rapid.Bool().Draw(t, "sd"), Data: mirror.Bytes(&mirror.Rapid{T: t}, "data", 10),
 			SetFloat: rapid.Bool().Draw(t, "sf"), FloatB: rapid.Uint32().Draw(t, "fb"),
 			SetInt: rapid.Bool().Draw(t, "si"), Int: rapid.Int32().Draw(t, "i"),
 			SetUint: rapid.Bool().Draw(t, "su"), Uint: rapid.Uint32().Draw(t, "u"),
